@@ -46,6 +46,8 @@ func (fv *FnVerifier) execLookup(x *ssa.Lookup, st *State) {
 	ks := fv.mapKeys(mt)
 	k := fv.scalar(fv.value(x.Index, st), mt.Key())
 	in := fv.q.bind(x.Name()+".in", "Bool", "(select (select "+fv.heapGet(st, ks[0])+" "+base.S+") "+k+")")
+	// a map that holds a key is not empty
+	fv.q.assume("(=> " + in + " " + fv.mode.cmp(">=", "(select "+fv.heapGet(st, ks[2])+" "+base.S+")", fv.mode.idx(1), true) + ")")
 	v := fv.q.bind(x.Name(), fv.sortOf(mt.Elem()), "(ite "+in+" (select (select "+fv.heapGet(st, ks[1])+" "+base.S+") "+k+") "+fv.zeroOf(mt.Elem())+")")
 	fv.q.assume(fv.wf(v, mt.Elem(), st))
 	if x.CommaOk {
@@ -432,7 +434,7 @@ func (fv *FnVerifier) contractFor(fn *ssa.Function) *FuncContract {
 		return fc
 	}
 	if o, ok := fn.Object().(*types.Func); ok {
-		return fv.eng.externContract(o)
+		return fv.externContract(o)
 	}
 	return nil
 }
@@ -910,7 +912,9 @@ func (fv *FnVerifier) execBuiltin(b *ssa.Builtin, c *ssa.CallCommon, st *State, 
 			return fromIdx("(strlen " + args[0].S + ")")
 		case *types.Map:
 			ks := fv.mapKeys(u)
-			return fromIdx("(select " + fv.heapGet(st, ks[2]) + " " + args[0].S + ")")
+			card := "(select " + fv.heapGet(st, ks[2]) + " " + args[0].S + ")"
+			fv.q.assume("(and " + m.cmp(">=", card, m.idx(0), true) + " " + m.cmp("<=", card, m.idx(281474976710655), true) + ")")
+			return fromIdx(card)
 		case *types.Array:
 			return fromIdx(m.idx(u.Len()))
 		case *types.Pointer:
